@@ -62,6 +62,14 @@ CHECKS = {
         technique="exhaustive enumeration (25 prefixes, 256 exponents, 1057 short strings) plus random strings against a hand-written SI table",
         text="The finite parts of the domain are enumerated completely on every run; random decorated / Unicode strings probe from_abbr beyond length 2.",
         design="4/C16"),
+    "C17": dict(
+        technique="property-based testing (proptest) of serde round trips (value tree and JSON text) with bit-identity and injectivity oracles, in builds with the crate's serde feature",
+        text="Random search over catalogue types x units x adversarial amounts (17 significant digits, integers beyond 2^53, -0.0, subnormals, 18 fractional digits, 36-digit coefficients, trailing zeros) in f64+serde and fpdec+serde builds; every unit of every type is also enumerated once.",
+        design="4/C17"),
+    "C18": dict(
+        technique="property-based testing (proptest) plus coverage-guided fuzzing (libFuzzer via cargo-fuzz, thorough tier) of all operation families; oracle: no panic inside the stated domain, the documented panic exactly for mixed units",
+        text="Operation families of C01-C05, C08, C13-C15 on every IEEE class under f64 and on magnitudes spread over and beyond [1e-15, 1e17] under decimal with an explicit domain predicate; the quick tier also replays a committed coverage-minimised libFuzzer corpus (2000 inputs per back-end), the thorough tier runs a fresh libFuzzer campaign per back-end on the same decoder and check.",
+        design="4/C18"),
 }
 
 NOT_YET = {}
